@@ -49,7 +49,7 @@ theorem decryptPayload_eq (P : Prims) (k : SessionKeys) (hk : ValidKeys k) (text
       | some raw =>
         if raw.length = 0 ∨ raw.length % 16 ≠ 0 then .error .missingKey
         else unpadView (cbcDecrypt (P.D (k.aesKey.take 16)) (k.aesIV.take 16) raw) 16 := by
-  unfold decryptPayload; rw [aesBlockAndIV_ok k hk]
+  unfold decryptPayload; rw [aesBlockAndIV_ok k hk]; rfl
 
 /-- **decrypt∘encrypt = id** for every payload (every length: the padding lemma is for all `n`) -/
 theorem c25_decrypt_encrypt (P : Prims) (hC : BlockCipherOK P) (hB : B64OK P) (k : SessionKeys) (hk : ValidKeys k)
@@ -57,7 +57,7 @@ theorem c25_decrypt_encrypt (P : Prims) (hC : BlockCipherOK P) (hB : B64OK P) (k
   have hiv : (k.aesIV.take 16).length = 16 := by rw [List.length_take]; unfold ValidKeys at hk; omega
   have hpl := padBytes_len p
   refine ⟨P.b64enc (cbcEncrypt (P.E (k.aesKey.take 16)) (k.aesIV.take 16) (padBytes p 16)), ?_, ?_⟩
-  · unfold encryptPayload; rw [aesBlockAndIV_ok k hk]; rfl
+  · unfold encryptPayload; rw [aesBlockAndIV_ok k hk]
   · rw [decryptPayload_eq P k hk, hB]
     simp only
     rw [cbcEncrypt_length _ (hC.elen _) _ _ hiv hpl.1, if_neg (by omega),
@@ -95,10 +95,11 @@ example : unpadView (List.replicate 16 0) 16 = .error .missingKey := c25_unpad_r
   have := congrArg List.getLast? h
   unfold padBytes at this
   have hk := paddingSize16 p.length
-  rw [List.getLast?_append, List.getLast?_replicate, if_neg (by omega)] at this
-  simp at this
-  have h2 := congrArg UInt8.toNat this
-  simp at h2
+  rw [List.getLast?_append, List.getLast?_replicate, List.getLast?_replicate, if_neg (by omega), if_neg (by omega)] at this
+  have h2 : (0 : UInt8) = UInt8.ofNat (pkcs7PaddingSize p.length 16) := by simpa using this
+  have h3 := congrArg UInt8.toNat h2
+  rw [u8_ofNat_toNat _ (by omega)] at h3
+  simp at h3
   omega)
 
 /-! ## 3. CBC is injective -/
@@ -260,7 +261,7 @@ theorem hexLower_injective : ∀ a b : Bytes, hexLower a = hexLower b → a = b 
 
 theorem msgKeyOf_ok (P : Prims) (k : SessionKeys) (hk : ValidKeys k) (sign : Bytes) :
     msgKeyOf P k sign = .ok (hexLower (P.md5 (P.b64enc (cbcEncrypt (P.E (k.aesKey.take 16)) (k.aesIV.take 16) (padBytes sign 16))))) := by
-  unfold msgKeyOf; rw [aesBlockAndIV_ok k hk]; rfl
+  unfold msgKeyOf; rw [aesBlockAndIV_ok k hk]
 
 /-- validation accepts exactly the packets that carry the key computed from their own content -/
 theorem validate_ok_iff (P : Prims) (k : SessionKeys) (q : SendPacket) :
